@@ -65,7 +65,7 @@ PROPS = {
                      {"name": "asan-nosse-guard", "flavour": "asan-nosse", "driver": "drv_pure", "args": [], "shards": 8},
                      {"name": "threads", "flavour": "asan", "driver": "drv_pure", "args": ["--mode", "threads"], "shards": 4}]},
     "C14": api("C14", "exploration",
-               "history + executable model: all canonical action sequences over <=4 slots with alphabet {create rs(4,2), rs(3,3), xor(5,5,3), null, failed-create, destroy(dead), destroy(slot), use(slot)} up to depth 4 (quick) / 6 (thorough), each with and without a descriptor-counter preset (counter jumps to INT_MAX-1 after the second create so that the wrap lands on live descriptors); "
+               "history + executable model: all canonical action sequences over <=4 slots with alphabet {create rs(4,2), rs(3,3), xor(5,5,3), null, rs(3,0), failed-create, destroy(dead), destroy(slot), use(slot)} up to depth 4 (quick) / 6 (thorough), each with and without a descriptor-counter preset (counter jumps to INT_MAX-1 after the second create so that the wrap lands on live descriptors); "
                "random histories of length 10..200 with counter presets {none, jump after 2nd/3rd create, INT_MAX-1 from the start, -5}; all 24 destruction orders of four RS instances; after every step: registry length == |model|, descriptor positive and unique, APIs on dead descriptors fail, used instance round-trips (decode with data loss + re-encode equals kept stripe); "
                "plus, with one or two instances of the same backend alive, a create in which every allocation site fails once (ledger failpoint, forked child per site): the failed create leaves the registry as it was, the siblings keep round-tripping, a following create works, the siblings can be destroyed in either order; "
                "non-trivial = every history / injected create; distinct = (action sequence, preset) or (config, siblings, allocation site)",
@@ -83,9 +83,12 @@ PROPS = {
                               "rc_create_EBACKENDINITERR", "rc_create_EBACKENDNOTAVAIL", "rc_create_EINVALIDPARAMS", "rc_create_EBACKENDNOTSUPP", "rc_encode_0", "rc_invalid_arg_call_EINVALIDPARAMS"]),
     "C17": api("C17", "fault_enumeration",
                "fault injection at the plugin boundary (operation table of the backend descriptor swapped for counting stubs around create): for each backend and each of init/encode/decode/reconstruct/fragments_needed, EVERY call position of that operation in a scripted workload (create, 3 encodes, 6 decodes with data loss, 5 reconstructs, 4 fragments_needed, destroy) fails once, plus shuffled scripts with random fault positions; "
-               "oracle: public rc<0, ledger delta 0 right after the failing call (heap and dlopen), registry unchanged for init, the next identical call succeeds byte-exactly, ledger back to baseline after destroy; ASan+LSan underneath; non-trivial = every fault position; distinct = (config, operation, position)",
+               "oracle: public rc<0, ledger delta 0 right after the failing call (heap and dlopen), registry unchanged for init, the next identical call succeeds byte-exactly, ledger back to baseline after destroy; ASan+LSan underneath; "
+               "plus: the backends' own init refusals after instance churn, every position of the reference libisal's matrix-inversion failpoint, the flat-XOR decoder's own failures (band hd..hd+1 of six tables), and an init that fails because ANY of its allocations fails (every allocation site of create, one or two siblings of the same backend alive, siblings used and destroyed afterwards); "
+               "non-trivial = every fault position; distinct = (config, operation, position)",
                exhaustive={"quick": True, "thorough": True},
-               exhaustive_scope="every call position of every backend operation in the scripted workload, for 14 configurations (incl. m > k, k = 1, k = m, k+m = 32)"),
+               exhaustive_scope="every call position of every backend operation in the scripted workload, for 16 configurations (incl. m > k, k = 1, k = m, k+m = 32, backend metadata); every allocation site of create with live siblings",
+               extra_runs=[{"name": "plain-oomcreate", "flavour": "plain", "driver": "drv_api_ledger", "args": ["--mode", "oomcreate"]}]),
     "C13": api("C13", "exploration",
                "case = one public call with an invalid argument (every entry point x dead/unknown descriptors {0,-1,INT_MAX,INT_MIN,never issued,destroyed} x NULL-argument subsets x counts {-1,0,INT_MIN} x fragment_len {0,1,79} x out-of-range destinations x bad backend ids), "
                "or one shape of the box backend x k,m in -1..33 x hd 0..7 x w (create refused, or full encode/decode/reconstruct/query/destroy cycle without faults); output pointers pre-poisoned; "
